@@ -745,6 +745,33 @@ def c20(ctx):
                   "status compared; verdict and message compared with eav_is_email under default settings on the pinned address")
 
 
+def c10(ctx):
+    q = ctx.quick()
+    outs = []
+    outs.append(("idn-scripts", tlc_ok(ctx, "MC_Idn", "CONSTANTS\n  Part = 1\n  MaxLabels = %d\nINIT Init\nNEXT Next\nINVARIANT Inv\nCHECK_DEADLOCK FALSE\n" % (2 if q else 3))))
+    outs.append(("idn-tlds", tlc_ok(ctx, "MC_Idn", "CONSTANTS\n  Part = 2\n  MaxLabels = 1\nINIT Init\nNEXT Next\nINVARIANT Inv\nCHECK_DEADLOCK FALSE\n")))
+    outs.append(("idn-violations", tlc_ok(ctx, "MC_Idn", "CONSTANTS\n  Part = 3\n  MaxLabels = 1\nINIT Init\nNEXT Next\nINVARIANT Inv\nCHECK_DEADLOCK FALSE\n")))
+    b = build(ctx, "default", 0)
+    for tag, r in outs:
+        sample_vectors(ctx, r["out"])
+        res = replay(ctx, b, r["out"], tag)
+        crash_violation(ctx, res, ["C06", "C10"])
+        for v in res["viol"]:
+            add_violation(ctx, "C10", v["what"], {"domain": v["in"], "text": vlib.bytes_to_text(v["in"]), "mode": v["mode"], "tld_check": v["opts"],
+                                                 "expected": v["exp"], "got": v["got"], "converter_code_or_flags": v["model"]})
+        email_drift(ctx, res)
+    # all-ASCII domains: 6531 accepts only what the ASCII modes accept, same class, else IDN error (address vectors, relation 'cross-mode-6531')
+    suite_email(ctx, 2, 0)
+    suite_tld(ctx, 2)
+    suite_tld(ctx, 1, 16 if q else 2)
+    return finish(ctx, "model_checking",
+                  "TLC enumerates UTF-8 domains of 1..MaxLabels labels over letters/digits of 8 scripts + ASCII, every internationalised TLD of "
+                  "the table in U-form behind ASCII / Cyrillic / itself, and a list of UTF-8 / IDNA2008 violations; for each the driver obtains "
+                  "the A-label spelling from the converter and compares the library's outcome for both spellings (mode 6531) and the ASCII modes' "
+                  "outcome for the A-label (decision, TLD class, flags, tld_check off/on); every outcome is also validated by TLC against the "
+                  "recorded converter answer (Trace_Func.EmailOk); all-ASCII domains through the address / TLD vectors")
+
+
 def c17(ctx):
     q = ctx.quick()
     # the Makefile's defaults: all three options OFF
@@ -869,7 +896,7 @@ def c03(ctx):
                   "decision compared with well-formed-UTF-8 + RFC 5321 grammar over code points")
 
 
-PROPS = {"C01": c01, "C02": c02, "C03": c03, "C04": c04, "C05": c05, "C07": c07, "C08": c08, "C09": c09, "C11": c11,
+PROPS = {"C01": c01, "C02": c02, "C03": c03, "C04": c04, "C05": c05, "C07": c07, "C08": c08, "C09": c09, "C10": c10, "C11": c11,
          "C06": c06, "C12": c12, "C13": c13, "C14": c14, "C15": c15, "C16": c16, "C17": c17, "C18": c18, "C19": c19, "C20": c20}
 
 
